@@ -221,8 +221,8 @@ CallerClause(e) ==
         ELSE IF e.hdrs # w.hdrs THEN "HeadersSame"
         ELSE IF ~Contains(e.hdrs, r.hdrs) THEN "HeadersSame"
         ELSE IF ~CombinedOk(e.hdrs, e.hmap) THEN "HeaderMapSame"
-        ELSE IF ~e.gotBody THEN "BodyNotReceived"
         ELSE IF o.k = "Tunnel" THEN ""                 \* what follows is tunnel data, not a body
+        ELSE IF ~e.gotBody THEN "BodyNotReceived"
         ELSE IF e.bodyLen # wb.len \/ e.bodyCrc # wb.crc THEN "ReceiverFollowsRfc"
         ELSE IF r.bodyKnown /\ o.k \in {"Length", "Chunked", "UntilEOF"} /\ (e.bodyLen # r.bodyLen \/ e.bodyCrc # r.bodyCrc)
             THEN "RespBodySame"
@@ -295,7 +295,8 @@ Step(e) ==
 \* A HEAD request that declares a body: the server parser skips the body, so everything that goes wrong with that
 \* body afterwards (partly written, left in the stream, connection closed by one end only) is the same deviation.
 HeadBodyCascade == {"ReqFramingTruthful", "CloseAgree", "RequestNotDelivered", "ReqReceiverFollowsRfc",
-                    "WithheldBodyConnectionReused", "NextRequestFails", "ClientLeftWaiting"}
+                    "WithheldBodyConnectionReused", "NextRequestFails", "ClientLeftWaiting",
+                    "FramingTruthful", "BodySentForHead"}     \* the 400 answering the stray body follows the HEAD response
 HeadWithBody(e) ==
     LET w == IF e.ev = "reqwire" THEN e ELSE IF "reqwire" \in DOMAIN st THEN st["reqwire"] ELSE [present |-> FALSE] IN
     /\ w.present /\ w.method = "HEAD" /\ (w.cl > 0 \/ w.te = "chunked")
